@@ -143,6 +143,27 @@ def cases(ctx: Ctx):
             f = acdev.resp_frame(3, bytes([0xB5, 1, rid & 0xFF, rid >> 8, len(data)]) + bytes(data) + bytes([0, 0]), "crc")
             for op2 in ("refresh", "apply", "toggle_display", "start_self_clean"):
                 out.append((f"seq:get_capabilities>{op2}", [f], f"capabilities {rid:04x}={v}, then {op2}"))
+    # 14. a decodable capabilities response next to other frames in the exchange of get_capabilities(): in front of it, behind it, both
+    capsud = acdev.resp_frame(3, bytes([0xB5, 2, 0x09, 0x00, 1, 1, 0x14, 0x02, 1, 1, 0, 0]), "crc")
+    others = [good_state(rng), acdev.resp_frame(3, vb["energy"], "crc"), acdev.resp_frame(3, vb["props"], "crc"), acdev.resp_frame(5, vb["state"], "sum"),
+              acdev.resp_frame(3, vb["state"][:5], "crc"), bytes(7)]
+    for o in others:
+        out.append(("get_capabilities", [o, capsud], "other+caps"))
+        out.append(("get_capabilities", [capsud, o], "caps+other"))
+        out.append(("get_capabilities", [o, o, capsud, o], "others+caps+other"))
+    out.append(("get_capabilities", [capsud], "caps"))
+    # 12. property records with the "execution failed" bit (result byte 0x10 ...) for every id, full and short values
+    for pid in (0x09, 0x0A, 0x15, 0x18, 0x1A, 0x39, 0x42, 0x43, 0x48, 0x4B, 0xE3, 0x021E, 0x0227):
+        for res in (0x10, 0x11, 0x01, 0xFF):
+            for val in ([], [1], [1, 1], [0] * 7):
+                body = bytes([0xB1 if len(val) % 2 else 0xB0, 1, pid & 0xFF, pid >> 8, res, len(val)]) + bytes(val)
+                out.append((["refresh", "apply", "start_self_clean"][(pid + res + len(val)) % 3], [acdev.resp_frame(3, body, "crc"), good_state(rng)], f"prop{pid:04x}-result{res:02x}-size{len(val)}+good"))
+    # 13. multi-command refresh (the unit has humidity / energy / property polling): one command answered well, ANOTHER answered with an undecodable
+    #     or empty reply - the state delivered by the first is still applied
+    rich = acdev.resp_frame(3, bytes([0xB5, 4, 0x16, 0x02, 1, 3, 0x1F, 0x02, 1, 2, 0x09, 0x00, 1, 1, 0x10, 0x02, 1, 1, 0, 0]), "crc")
+    for bad in ([], [acdev.resp_frame(3, vb["humidity"][:3], "crc")], [acdev.resp_frame(3, vb["energy"][:6], "sum")], [bytes(5)], [acdev.resp_frame(3, bytes([0xB1]), "crc")]):
+        for where in (1, 2, 3):
+            out.append(("richrefresh", [rich, good_state(rng)] + [b"%d" % where] + bad, f"multi-command refresh, command {where + 1} answered with {len(bad)} undecodable frame(s)"))
     # 8. property responses mixed with undecodable / empty / foreign property frames in ONE exchange
     def pf(recs, ftype=3, style="crc", rid=0xB1, count=None):
         body = bytes([rid, len(recs) if count is None else count])
@@ -210,7 +231,18 @@ def collect(ctx: Ctx, cs):
             ac.script = []
             raised = "none"
             try:
-                if op == "caps2":
+                if op == "richrefresh":
+                    # frames = [capabilities, good state, marker(which later command gets the bad answer), bad frames...]
+                    where = int(bytes(frames[2]))
+                    ac.script = [[bytes(frames[0])]]
+                    ac.replies = []
+                    await d.get_capabilities()
+                    scr = [[bytes(frames[1])], [bytes(frames[1])], [bytes(frames[1])], [bytes(frames[1])]]
+                    scr[where] = [bytes(f) for f in frames[3:]]
+                    ac.script = scr
+                    await d.refresh()
+                    ac.script = []
+                elif op == "caps2":
                     ac.script = [[bytes(frames[0])], [bytes(f) for f in frames[1:]]]
                     ac.replies = []
                     await d.get_capabilities()
@@ -235,8 +267,14 @@ def collect(ctx: Ctx, cs):
             except Exception as e:  # noqa: BLE001
                 pfl = pbefore
                 raised = raised if raised != "none" else "attrs:" + type(e).__name__
+            if op == "richrefresh":
+                op, frames = "refresh", [frames[1]] + list(frames[3:])          # judged as: a refresh during which these frames were delivered
+            try:
+                cfl = {"ud": bool(d.supports_vertical_swing_angle)}
+            except Exception:  # noqa: BLE001
+                cfl = {"ud": False}
             vectors.append({"op": op, "tag": tag, "frames": [B(f) for f in frames], "raised": raised, "online": bool(d.online),
-                            "flags": fl, "before": before, "pflags": pfl, "pbefore": pbefore})
+                            "flags": fl, "before": before, "pflags": pfl, "pbefore": pbefore, "cflags": cfl})
             if d._lan._protocol:
                 d._lan._disconnect()
 
